@@ -362,6 +362,49 @@ Definition results (st : state) : list (list result) :=
 Definition all_done (st : state) : bool :=
   forallb (fun th => match t_calls th with [] => true | _ => false end) (s_thr st).
 
+(* ---- which schema object a call hands to its caller -------------------------------- *)
+(* the RefSchema cell whose To the returning call hands out (Go: the pointer `built.To` /
+   `placeholder.To`; two calls return the same object iff they return the same cell's To) *)
+Definition result_cell (n : name) (sh : shared) (p : pc) : option cellid :=
+  match p with
+  | PLookup => lookup (cmap sh) n
+  | PReturn c => Some c
+  | _ => None
+  end.
+
+(* (thread, type asked for, cell handed out) if this step of t completes a call with a schema *)
+Definition gstep_ret (k : nat) (g : graph) (t : tid) (st : state) : option (tid * name * cellid) :=
+  match nth_error (s_thr st) t with
+  | None => None
+  | Some th =>
+      match t_calls th with
+      | [] => None
+      | n :: _ =>
+          match t_pc th with
+          | PEnter | PWait => None
+          | p =>
+              match snd (lstep k g n (s_sh st) p) with
+              | inr (ROk _) =>
+                  match result_cell n (s_sh st) p with
+                  | Some c => Some (t, n, c)
+                  | None => None
+                  end
+              | _ => None
+              end
+          end
+      end
+  end.
+
+(* the objects handed out along a run, in order of completion *)
+Fixpoint rets_from (d : disc) (k : nat) (g : graph) (sched : list tid) (st : state) : list (tid * name * cellid) :=
+  match sched with
+  | [] => []
+  | t :: r =>
+      match gstep_ret k g t st with Some x => [x] | None => [] end ++ rets_from d k g r (gstep d k g t st)
+  end.
+
+Definition rets d k g calls sched := rets_from d k g sched (init calls).
+
 (* ---- the hook a thread is parked at, as the harness observes it --------- *)
 Definition pc_label (th : thread) : N :=
   match t_calls th with
